@@ -200,7 +200,7 @@ func runPipelineYAML(dir, name, yaml, outRoot string) runResult {
 
 func runPipelineFile(path, outRoot string) (res runResult) {
 	res.Panic, res.Stack = guard(func() {
-		pipeline, err := codegen.PipelineFromFile(path)
+		pipeline, err := codegen.PipelineFromFile(path, codegen.Parameters(nil))
 		if err != nil {
 			res.Err = err
 			return
